@@ -11,11 +11,15 @@ G == Rr.groups
 Final(g) == g.path[Len(g.path)].t
 TOf(g, k) == IF g.steps[k].same THEN Final(g) ELSE g.steps[k].t
 
+\* An object with a life: the Table object the caller obtained BEFORE the call (and read through once).  "kept" = the merge readers of
+\* every cell as reached through THAT object after the call; they are the readers a fresh object gives (a view of the table, not a copy).
+Flags(t) == [r \in DOMAIN t.rows |-> [c \in DOMAIN t.rows[r] |-> [o |-> t.rows[r][c].o, sp |-> t.rows[r][c].sp, sh |-> t.rows[r][c].sh, sw |-> t.rows[r][c].sw]]]
+KeptFailing(kept, t) == IF WellFormed(t) /\ kept # Flags(t) THEN {"KeptObjectAgrees"} ELSE {}
 \* failures of one group, as a set of records
-PathBad(g) == {[at |-> "path", k |-> k, failing |-> PostFailing(g.path[k-1].t, g.path[k].a, g.path[k].out, g.path[k].t) \cup InvFailing(g.path[k].t)] :
-                 k \in {j \in 2..Len(g.path) : PostFailing(g.path[j-1].t, g.path[j].a, g.path[j].out, g.path[j].t) \cup InvFailing(g.path[j].t) # {}}}
-StepBad(g) == {[at |-> "step", k |-> k, failing |-> PostFailing(Final(g), g.steps[k].a, g.steps[k].out, TOf(g, k)) \cup InvFailing(TOf(g, k))] :
-                 k \in {j \in DOMAIN g.steps : PostFailing(Final(g), g.steps[j].a, g.steps[j].out, TOf(g, j)) \cup InvFailing(TOf(g, j)) # {}}}
+PathF(g, k) == PostFailing(g.path[k-1].t, g.path[k].a, g.path[k].out, g.path[k].t) \cup InvFailing(g.path[k].t) \cup KeptFailing(g.path[k].kept, g.path[k].t)
+StepF(g, k) == PostFailing(Final(g), g.steps[k].a, g.steps[k].out, TOf(g, k)) \cup InvFailing(TOf(g, k)) \cup KeptFailing(g.steps[k].kept, TOf(g, k))
+PathBad(g) == {[at |-> "path", k |-> k, failing |-> PathF(g, k)] : k \in {j \in 2..Len(g.path) : PathF(g, j) # {}}}
+StepBad(g) == {[at |-> "step", k |-> k, failing |-> StepF(g, k)] : k \in {j \in DOMAIN g.steps : StepF(g, j) # {}}}
 CreateBad(g) == LET c == g.h[1] f == CreateFailing(c.r, c.c, c.w, c.h, g.created) \cup InvFailing(g.created) \cup InvFailing(g.path[1].t)
                 IN IF f = {} THEN {} ELSE {[at |-> "create", k |-> 0, failing |-> f]}
 Bad(g) == CreateBad(g) \cup PathBad(g) \cup StepBad(g)
